@@ -118,10 +118,28 @@ impl Journal {
         soa_serial: u32,
         records: &[Record],
     ) -> Result<(), PersistenceError> {
-        // TODO: NEED TRANSACTION HERE
+        // All rows of one update are written in a single transaction, so that a failure or a stop
+        // part way through never leaves a partial update behind for recovery to replay.
+        self.conn
+            .lock()
+            .expect("conn poisoned")
+            .execute_batch("BEGIN")?;
+
         for record in records {
-            self.insert_record(soa_serial, record)?;
+            if let Err(error) = self.insert_record(soa_serial, record) {
+                let _ = self
+                    .conn
+                    .lock()
+                    .expect("conn poisoned")
+                    .execute_batch("ROLLBACK");
+                return Err(error);
+            }
         }
+
+        self.conn
+            .lock()
+            .expect("conn poisoned")
+            .execute_batch("COMMIT")?;
 
         Ok(())
     }
